@@ -124,7 +124,7 @@ pub fn replay(args: &[String]) {
         let mut stats = crate::props::cost::CostStats::default();
         for op in r["ops"].as_array().cloned().unwrap_or_default() {
             let p = op["parser"].as_u64().unwrap_or(0) as usize;
-            if op.get("evict").is_some() {
+            if op.get("evict").is_some() || op.get("rekey").is_some() {
                 continue;
             }
             if let Some(a) = op.get("allowed") {
@@ -152,6 +152,14 @@ pub fn replay(args: &[String]) {
                 sut.parsers[p].allowed_versions = (0..=65535u16).collect();
             }
             println!("parser {}: application assigns allowed_versions = {}", p, a);
+            continue;
+        }
+        if let Some(e) = op.get("rekey") {
+            let map = e["map"].as_str().unwrap_or("");
+            let id = e["id"].as_u64().unwrap_or(0) as u16;
+            let to = e["to"].as_u64().unwrap_or(0) as u16;
+            let was = crate::ctx::rekey_in(&mut sut.parsers[p], map, id, to);
+            println!("parser {}: application moves the entry of {} under key {} to key {} (present: {})", p, map, id, to, was);
             continue;
         }
         if let Some(e) = op.get("evict") {
